@@ -7,6 +7,7 @@ import (
 	"sort"
 	"strings"
 	"sync"
+	"sync/atomic"
 	"time"
 
 	"verif/drive"
@@ -518,6 +519,10 @@ func C09() int {
 		}
 		sym2, _, _, got2 := judge()
 		if sym2 != sym || got2.Stdout != got.Stdout {
+			if sym3, _, _, _ := judge(); sym == "runaway" && sym2 == "" && sym3 == "" {
+				atomic.AddInt64(&TransientKills, 1) // a sandbox kill on an overloaded machine that did not repeat
+				return
+			}
 			panic("HARNESS ERROR: c09 replay differs for " + c.name)
 		}
 		key := "case=" + c.name + " symptom=" + sym
@@ -543,7 +548,7 @@ func C09() int {
 	r.Set("exhaustive", !capped)
 	r.Set("rule", "every import graph over main + up to 2 library files (3 in thorough: every DAG x every set of main edges with all files reachable), each library drawn from feature combinations {public func, private func + public wrapper + unused func, global + top-level code, top-level call of own function, public func reading own global, func calling into own import}, equal names (Get, helper, Wrap) in every file and in main, a file imported under two aliases, std strings mixed in, and content-hash prefixes steered to start with a digit / a letter (every hex digit in thorough). Oracle: the reference interpreter's module semantics (each file's top-level code once, in dependency order); bash stdout/exit/stderr must match; static scan: no function defined twice or invoked at top level before its definition; the Batch target must accept the same files; and for every graph, main extended by one illegal access (private, underscore-led, undefined or unaliased name, alias of a file's own import, unknown alias) must be rejected for both targets. Distinct by the set of file contents.")
 	r.Assumef("the std library is not interpreted by the model; its one call has a fixed expected value")
-	return r.Finish()
+	return finish(r)
 }
 
 // c09KnownKey maps a failing case to the key of a listed root cause when the failure has exactly
